@@ -22,6 +22,17 @@
    VIOLATION unless the model names a deviation for exactly this input and
    the server returned exactly what the as-is model predicts (known finding).
    A difference from the model's prediction alone is drift.
+3. Encapsulated messages (message/rfc822 entities) are not in the TLA+ model.
+   Directed MIME trees (ENCAPS_SHAPES) and seeded random trees with
+   message/rfc822 parts go through the same direct / dict / maildir pipeline
+   and are judged by the laws alone: the BODYSTRUCTURE reader descends into
+   the body structure of the embedded message with the numbering of RFC 3501
+   6.4.5 (the parts of a multipart embedded message are P.1, P.2, ...; a
+   non-multipart embedded message is P.1) and the part-size clause is applied
+   to every part announced there.  No model prediction exists for these
+   parts: the open finding BodystructureSizeIncludesHeader is attributed by
+   its signature alone (announced = len(BODY[p.MIME]) + len(BODY[p]) and the
+   two are one contiguous stretch of the stored message).
 """
 
 from __future__ import annotations
@@ -205,6 +216,127 @@ def pyslice(n: int, a: int, b: int):
 
 
 # --------------------------------------------------------------------------
+# encapsulated messages: directed and random MIME trees (kind 'e'; not in the
+# TLA+ model, judged by the laws only)
+#
+# tree:  ('t',)          a text entity
+#        ('m', [tree..]) a multipart entity
+#        ('r', tree)     a message/rfc822 entity whose body is the message `tree`
+
+_T, _ALT2 = ('t',), ('m', [('t',), ('t',)])
+ENCAPS_SHAPES = {
+    # message/rfc822 part embedding a 2-alternative multipart
+    'a:mixed>[rfc822>alt[t,t]]': ('m', [('r', _ALT2)]),
+    # ... a single-part message
+    'b:mixed>[rfc822>t]': ('m', [('r', _T)]),
+    # ... a message/rfc822 that embeds a multipart
+    'c:mixed>[rfc822>rfc822>alt[t,t]]': ('m', [('r', ('r', _ALT2))]),
+    'd:mixed>[t,rfc822>mixed[t,alt[t,t]]]':
+        ('m', [_T, ('r', ('m', [_T, _ALT2]))]),
+    # the whole message is one encapsulated message
+    'e:rfc822>alt[t,t]': ('r', _ALT2),
+    'f:rfc822>t': ('r', _T),
+    'g:rfc822>rfc822>alt[t,t]': ('r', ('r', _ALT2)),
+    'h:mixed>[rfc822>t,rfc822>alt[t,t],t]': ('m', [('r', _T), ('r', _ALT2), _T]),
+    'i:mixed>[rfc822>mixed[rfc822>alt[t,t],t]]':
+        ('m', [('r', ('m', [('r', _ALT2), _T]))]),
+    'j:mixed>[rfc822>mixed[t]]': ('m', [('r', ('m', [_T]))]),
+}
+# how the message ends: every closing boundary present and a final newline /
+# no final newline / cut off after the last line of the innermost (last) part,
+# that line without / with its newline
+ENCAPS_TAILS = ('nl', 'no-nl', 'cut', 'cut-nl')
+_CTM_REPS = [CTM_LINE, b'content-type: MESSAGE/RFC822', b'Content-Type: message/rfc822; x=y']
+_MULTI_SUB = [b'mixed', b'alternative', b'related', b'digest']
+_PART_HDR = [[b'Content-Type: text/plain'], [], [b'Subject: hello', b'From: a@b.c'],
+             [b'X-Any:\x80\xff v', b'\t; x=y'], [b'Content-Type: text/html; charset=x']]
+_PART_TXT = [[b'text line'], [b'xy', b'', b'z'], [b'alternative2', b' '],
+             [b'--Xb1 not a boundary', b'text\x80\xfe line']]
+
+
+def _tree_has_r(tree) -> bool:
+    if tree[0] == 'r':
+        return True
+    return tree[0] == 'm' and any(_tree_has_r(k) for k in tree[1])
+
+
+def rand_tree(rng: random.Random, depth: int = 0):
+    r = rng.random()
+    if depth >= 4 or r < 0.3:
+        return _T
+    if r < 0.65:
+        return ('m', [rand_tree(rng, depth + 1) for _ in range(rng.randint(1, 3))])
+    return ('r', rand_tree(rng, depth + 1))
+
+
+def conc_tree(tree, tail: str, eol: bytes, rng: random.Random | None) -> bytes:
+    """the message of the tree.  rng None: canonical representatives (no
+    preamble / epilogue, minimal headers); boundaries are unique per multipart
+    and are no token of the line model (the model has no prediction)."""
+    ctr = [0]
+    closers = set()
+    cut = tail.startswith('cut')
+
+    def pick(seq):
+        return seq[0] if rng is None else rng.choice(seq)
+
+    def ent(t) -> list:
+        if t[0] == 't':
+            return list(pick(_PART_HDR)) + [b''] + list(pick(_PART_TXT))
+        if t[0] == 'r':
+            hdr = [pick(_CTM_REPS)]
+            if rng is not None and rng.random() < 0.3:
+                hdr.insert(rng.randint(0, 1), b'Content-Description: fwd')
+            return hdr + [b''] + ent(t[1])
+        ctr[0] += 1
+        bnd = b'Xb%d' % ctr[0]
+        q = b'"' if rng is not None and rng.random() < 0.3 else b''
+        out = [b'Content-Type: multipart/' + pick(_MULTI_SUB) + b'; boundary=' + q + bnd + q]
+        if rng is not None and rng.random() < 0.3:
+            out.append(b'Subject: hello')
+        out.append(b'')
+        if rng is not None and rng.random() < 0.25:
+            out.append(b'preamble')
+        for kid in t[1]:
+            out.append(b'--' + bnd)
+            out += ent(kid)
+        out.append(b'--' + bnd + b'--')
+        closers.add(out[-1])
+        if rng is not None and not cut and rng.random() < 0.25:
+            out.append(b'epilogue')
+        return out
+
+    lines = ent(tree)
+    if cut:
+        while lines and lines[-1] in closers:
+            lines.pop()
+    return eol.join(lines) + (eol if tail.endswith('nl') and tail != 'no-nl' else b'')
+
+
+def encaps_items(seed: int, rng: random.Random, n_random: int) -> list:
+    """[(key, data)] - the directed shapes in every tail / line terminator
+    (canonical and one seeded representative) and n_random random trees that
+    contain a message/rfc822 entity"""
+    out = []
+    for name, tree in ENCAPS_SHAPES.items():
+        for tail in ENCAPS_TAILS:
+            for en, eol in (('crlf', b'\r\n'), ('lf', b'\n')):
+                out.append((('encaps', name, tail, en, 0), conc_tree(tree, tail, eol, None)))
+                r = random.Random(zlib.crc32(repr((seed, name, tail, en)).encode()))
+                out.append((('encaps', name, tail, en, 1), conc_tree(tree, tail, eol, r)))
+    i = 0
+    while i < n_random:
+        tree = rand_tree(rng)
+        if not _tree_has_r(tree):
+            continue
+        tail, (en, eol) = rng.choice(ENCAPS_TAILS), rng.choice((('crlf', b'\r\n'), ('lf', b'\n')))
+        out.append((('encaps', 'random:' + repr(tree).replace(' ', ''), tail, en, i),
+                    conc_tree(tree, tail, eol, rng)))
+        i += 1
+    return out
+
+
+# --------------------------------------------------------------------------
 # the model's prediction for one concrete message
 
 
@@ -259,16 +391,31 @@ def pred_from_line_state(st: dict, data: bytes) -> Pred:
 
 
 def _bs_tree(bs):
-    """pymap BodyStructure object -> shape, leaves [(path, size)]"""
+    """pymap BodyStructure object -> shape, leaves [(path, size)], encl
+    {path: path of the message/rfc822 part it is announced below}, msgparts
+    (paths of the message/rfc822 entities).  Numbering: RFC 3501 6.4.5 (see
+    _bs_from_wire)."""
     leaves = []
+    encl: dict = {}
+    msgparts = set()
 
-    def walk(node, path):
+    def walk(node, path, below):
         parts = getattr(node, 'parts', None)
         if parts is not None:
-            return ('m', [walk(c, path + (j,)) for j, c in enumerate(parts, 1)])
-        leaves.append((path or (1,), node.size))
+            return ('m', [walk(c, path + (j,), below) for j, c in enumerate(parts, 1)])
+        here = path or (1,)
+        leaves.append((here, node.size))
+        if below is not None:
+            encl[here] = below
+        sub = getattr(node, 'body_structure', None)
+        if sub is not None:
+            msgparts.add(here)
+            if getattr(sub, 'parts', None) is not None:
+                walk(sub, here, here)
+            else:
+                walk(sub, here + (1,), here)
         return 'l'
-    return walk(bs, ()), leaves
+    return walk(bs, (), None), leaves, encl, msgparts
 
 
 def observe_direct(data: bytes) -> dict:
@@ -280,34 +427,60 @@ def observe_direct(data: bytes) -> dict:
     obs = {'raw': bytes(lm.get_body(None)), 'size': lm.get_size(),
            'hdr': bytes(lm.get_message_headers(None)),
            'txt': bytes(lm.get_message_text(None))}
-    shape, leaves = _bs_tree(lm.get_body_structure())
+    shape, leaves, encl, msgparts = _bs_tree(lm.get_body_structure())
     obs['shape'] = shape
+    obs['encl'], obs['msgparts'] = encl, msgparts
     obs['leaves'] = [(path, size, bytes(lm.get_body(path)),
                       bytes(lm.get_headers(path)))
                      for path, size in leaves]
     return obs
 
 
+def _is_multi(node) -> bool:
+    return isinstance(node, list) and bool(node) and isinstance(node[0], list)
+
+
 def _bs_from_wire(v):
+    """BODYSTRUCTURE value (wire_common reader) -> shape, leaves [(path, size)],
+    weird (unreadable places), encl {path: message/rfc822 part it is announced
+    below}, msgparts.  A message/rfc822 entity is a leaf with its own size (its
+    shape stays 'l': the model has no such entity); the body structure of the
+    message it embeds (body-type-msg: type subtype params id desc enc size
+    envelope BODY lines) is read too, numbered as RFC 3501 6.4.5 says: the
+    parts of an embedded multipart message are P.1, P.2, ..., the body of an
+    embedded non-multipart message is P.1."""
     leaves = []
     weird = []
+    encl: dict = {}
+    msgparts = set()
 
-    def walk(node, path):
-        if isinstance(node, list) and node and isinstance(node[0], list):
+    def walk(node, path, below):
+        if _is_multi(node):
             kids = []      # the children are the leading lists
             for c in node:
                 if isinstance(c, list):
                     kids.append(c)
                 else:
                     break
-            return ('m', [walk(c, path + (j,)) for j, c in enumerate(kids, 1)])
+            return ('m', [walk(c, path + (j,), below) for j, c in enumerate(kids, 1)])
         if isinstance(node, list) and len(node) >= 7 and isinstance(node[6], int) \
                 and isinstance(node[0], tuple) and node[0][0] in ('q', 'l'):
-            leaves.append((path or (1,), node[6]))
+            here = path or (1,)
+            leaves.append((here, node[6]))
+            if below is not None:
+                encl[here] = below
+            if node[0][1].lower() == b'message' and isinstance(node[1], tuple) \
+                    and node[1][0] in ('q', 'l') and node[1][1].lower() == b'rfc822':
+                if len(node) >= 10 and isinstance(node[7], list) \
+                        and isinstance(node[8], list) and isinstance(node[9], int):
+                    msgparts.add(here)
+                    walk(node[8], here if _is_multi(node[8]) else here + (1,), here)
+                else:
+                    weird.append(here)
             return 'l'
         weird.append(path)
         return ('m', [])
-    return walk(v, ()), leaves, weird
+    return walk(v, (), None), leaves, weird, encl, msgparts
 
 
 # --------------------------------------------------------------------------
